@@ -361,7 +361,7 @@ def gen_actor_case(rng, name, props, logger=False):
     if logger:
         levels = rng.choice([["open"], ["info"], ["off"], ["trace", "open"], ["error", "audit"],
                              ["warn", "close"], ["audit"], ["debug", "audit", "open"]])
-        ops.append({"op": "setlogger", "levels": levels})
+        ops.append({"op": "setlogger", "levels": levels, "sink": rng.random() < 0.3})
 
     def init_item(kind, depth=0):
         it = {"id": ids.next("item"), "ops": [], "ret": "none"}
@@ -383,7 +383,7 @@ def gen_actor_case(rng, name, props, logger=False):
         aid = ids.next("aid")
         oid = ids.next("oid")
         kind = rng.choice(["now", "now", "now", "async", "async", "fail", "never", "stopinit", "failsome"])
-        op = {"op": "acreate", "aid": aid, "oid": oid, "slab": slab}
+        op = {"op": "acreate", "aid": aid, "oid": oid, "slab": slab, "form": rng.choice([0, 0, 1, 2])}
         if kind == "async":
             steps = rng.randrange(1, 4)
             # chain of prep calls to self
